@@ -53,6 +53,10 @@ pub struct Spec {
     /// from one pass), "main" = additionally the repository's real `main.rs run` for the group's
     /// command form, with its output captured at descriptor level.
     pub mode: String,
+    /// In-process tier: "thread" = every launch of the group is a fresh thread of one process
+    /// (the group's own forked child), "process" = every launch is a process of its own, so that
+    /// lazily initialised process-wide state is fresh per launch as it is in reality.
+    pub isolation: String,
 }
 
 impl Spec {
@@ -70,6 +74,7 @@ impl Spec {
             "plans": self.plans.iter().map(Plan::to_json).collect::<Vec<_>>(),
             "launcher": self.launcher,
             "mode": self.mode,
+            "isolation": self.isolation,
         })
     }
     pub fn from_json(v: &Value) -> Option<Spec> {
@@ -90,6 +95,7 @@ impl Spec {
             plans: v.get("plans")?.as_array()?.iter().filter_map(Plan::from_json).collect(),
             launcher: v.get("launcher").and_then(Value::as_str).unwrap_or("exec").to_owned(),
             mode: v.get("mode").and_then(Value::as_str).unwrap_or("stages").to_owned(),
+            isolation: v.get("isolation").and_then(Value::as_str).unwrap_or("thread").to_owned(),
         })
     }
 }
@@ -191,8 +197,17 @@ pub fn derive_plans(rng: &mut Rng, tier: Tier, count: usize) -> Vec<Plan> {
             // briefly, it only adds latency); later ones exist only if a change creates them
             let first = if rng.chance(1, 4) { rng.range(50, 300) as u32 } else { 0 };
             plan.stall = vec![first];
+            plan.linger = vec![0];
             for _ in 0..rng.range(1, 5) {
-                plan.stall.push(*rng.pick(&[0u32, 0, 200, 1000, 3000]));
+                // either the new thread starts late, or its creator is held back so that the new
+                // thread runs first
+                if rng.chance(1, 2) {
+                    plan.stall.push(*rng.pick(&[0u32, 200, 1000, 3000]));
+                    plan.linger.push(0);
+                } else {
+                    plan.stall.push(0);
+                    plan.linger.push(*rng.pick(&[200u32, 1000, 3000]));
+                }
             }
         }
         let force_repeat = plan.kind == "repeat_only";
@@ -232,9 +247,14 @@ pub fn derive_spec(seed: u64, tier: Tier, idx: usize, corpus: &[String], shape: 
     let plans = derive_plans(&mut rng, tier, shape.plans);
     let launcher = if tier == Tier::Exec && rng.chance(4, 5) { "fork" } else { "exec" };
     let mode = if tier == Tier::InProc && rng.chance(2, 5) { "main" } else { "stages" };
+    // forks are serialised by this kind of VM (~550/s in total), so only a slice of the groups
+    // gets a process per launch, and those use the first six plans only
+    let isolation = if tier == Tier::InProc && rng.chance(1, 14) { "process" } else { "thread" };
+    let plans = if isolation == "process" { plans.into_iter().take(6).collect() } else { plans };
     Spec {
         launcher: launcher.to_owned(),
         mode: mode.to_owned(),
+        isolation: isolation.to_owned(),
         tier,
         form,
         colour,
@@ -399,6 +419,73 @@ fn obs_inproc(
     }
 }
 
+/// One launch in a process of its own (see `sim_fork`): the child runs the launch exactly as the
+/// thread-isolated path does and ships what it saw back as JSON.
+fn obs_inproc_isolated(
+    spec: &Spec,
+    path: &str,
+    capture_dir: &Path,
+    plan: &Plan,
+    envs: &Envs,
+    orders: &mut Vec<String>,
+    mirror_mismatches: &mut u64,
+) -> (LaunchObs, CallLog) {
+    let end = crate::sim_fork::in_child(envs.exec.cap, || {
+        let mut child_orders = vec![];
+        let mut child_mismatches = 0u64;
+        let (obs, log) = obs_inproc(spec, path, capture_dir, plan, envs.step_budget, &mut child_orders, &mut child_mismatches);
+        json!({
+            "obs": obs.to_json(),
+            "calls": log.calls.iter().map(|c| json!([c.0, c.1, c.2])).collect::<Vec<_>>(),
+            "clock_reads": log.clock_reads,
+            "pid_reads": log.pid_reads,
+            "orders": child_orders,
+            "mismatches": child_mismatches,
+        })
+        .to_string()
+    });
+    match end {
+        crate::sim_fork::ChildEnd::Replied(text) => {
+            let v: Value = serde_json::from_str(&text).unwrap_or(Value::Null);
+            let obs = v.get("obs").map_or(
+                LaunchObs { abnormal: Some("garbled reply".to_owned()), fields: vec![] },
+                crate::sim_min::obs_from_json,
+            );
+            let mut log = CallLog::default();
+            if let Some(calls) = v.get("calls").and_then(Value::as_array) {
+                for c in calls {
+                    if let Some(a) = c.as_array() {
+                        if a.len() == 3 {
+                            log.calls.push((
+                                a[0].as_u64().unwrap_or(0) as usize,
+                                a[1].as_u64().unwrap_or(0) as u32,
+                                a[2].as_i64().unwrap_or(0),
+                            ));
+                        }
+                    }
+                }
+            }
+            log.clock_reads = v.get("clock_reads").and_then(Value::as_u64).unwrap_or(0);
+            log.pid_reads = v.get("pid_reads").and_then(Value::as_u64).unwrap_or(0);
+            if let Some(o) = v.get("orders").and_then(Value::as_array) {
+                orders.extend(o.iter().filter_map(|x| x.as_str().map(str::to_owned)));
+            }
+            *mirror_mismatches += v.get("mismatches").and_then(Value::as_u64).unwrap_or(0);
+            (obs, log)
+        }
+        crate::sim_fork::ChildEnd::Died(how) => (
+            // e.g. "signal 6": the launch exhausted its stack; handled like a signal ending of
+            // the real binary (equal endings compare equal, unequal ones are inconclusive)
+            LaunchObs { abnormal: Some(how.clone()), fields: vec![("status".to_owned(), how)] },
+            CallLog::default(),
+        ),
+        crate::sim_fork::ChildEnd::TimedOut => (
+            LaunchObs { abnormal: Some("timeout".to_owned()), fields: vec![("status".to_owned(), "timeout".to_owned())] },
+            CallLog::default(),
+        ),
+    }
+}
+
 /// Run every launch of the spec and compare with the reference as each returns.
 /// `stop_at_first` ends the group at the first difference (the normal mode).
 pub fn run_spec(spec: &Spec, envs: &Envs, scratch_tag: &str, stop_at_first: bool) -> Outcome {
@@ -441,6 +528,9 @@ pub fn run_spec(spec: &Spec, envs: &Envs, scratch_tag: &str, stop_at_first: bool
 
     for (i, plan) in spec.plans.iter().enumerate() {
         let (obs, log) = match spec.tier {
+            Tier::InProc if spec.isolation == "process" => {
+                obs_inproc_isolated(spec, &path_arg, &dir, plan, envs, &mut out.orders, &mut out.mirror_mismatches)
+            }
             Tier::InProc => {
                 obs_inproc(spec, &path_arg, &dir, plan, envs.step_budget, &mut out.orders, &mut out.mirror_mismatches)
             }
